@@ -333,7 +333,6 @@ def run(c, drv, behs, nrep):
         elif item[0] == "hyp":
             _, beh, kind, path, ids = item
             t = BEH[beh]
-            ref_h = "tri" if beh != "ortho" else None
             groups = [("tri", [h for h in ids if h != "tri"])] if beh != "ortho" else [("tri", ["axis"])] + ([("gps", ["pstrain"])] if "pstrain" in ids else [])
             for ref_h, others in groups:
                 a = res[ids[ref_h]]
